@@ -113,6 +113,24 @@ theorem louvainFit_spec {argsort : List Int → List Nat} (hs : ∀ key, IsArgso
     obtain ⟨f, hf, hv, hsplit, _⟩ := postProcess_spec hs hl hc sortClusters shuffle bipartite nRow hidx
     exact ⟨f, c', by simp [h, hf, bind, Except.bind, pure, Except.pure], hv, hsplit⟩
 
+/-- ★★ total form: under the full kernel contract (`KernelLen`, `NoMergeStops`) and with as much fuel as nodes the
+    fit *returns* a valid clustering — no fuel disjunct -/
+theorem louvainFit_total {argsort : List Int → List Nat} (hs : ∀ key, IsArgsort key (argsort key))
+    {kernel : Nat → Nat → List Int × Bool} (hk : KernelLen kernel) (hst : NoMergeStops kernel) (nAgg : Int)
+    {fuel N : Nat} (hN : 0 < N) (hf : N ≤ fuel) (sortClusters shuffle bipartite : Bool) (nRow : Nat)
+    {index : List Nat} (hidx : shuffle = true → index.Perm (List.range N)) :
+    ∃ f count, louvainFit argsort kernel nAgg fuel N index sortClusters shuffle bipartite nRow = .ok (some (f, count)) ∧
+      ValidClustering N (allLabels f) sortClusters ∧ f = splitVars bipartite nRow (allLabels f) := by
+  unfold louvainFit
+  have hc0 : Contiguous (List.range N) N :=
+    ⟨fun x hx => List.mem_range.mp hx, fun c hc => List.mem_range.mpr hc⟩
+  rw [identity_eq]
+  rcases louvainLoop_spec (nAgg := nAgg) hk fuel 0 N (List.range N) hN hc0 with h | ⟨a', k, c', h, hl, _, hc, _⟩
+  · exact absurd h (louvainLoop_fuel hk hst fuel 0 N (List.range N) hN hc0 hf)
+  · rw [List.length_range] at hl
+    obtain ⟨f, hf', hv, hsplit, _⟩ := postProcess_spec hs hl hc sortClusters shuffle bipartite nRow hidx
+    exact ⟨f, c', by simp [h, hf', bind, Except.bind, pure, Except.pure], hv, hsplit⟩
+
 theorem SamePartition.trans {α β γ : Type} [DecidableEq α] [DecidableEq β] [DecidableEq γ]
     {a : List α} {b : List β} {c : List γ} (h1 : SamePartition a b) (h2 : SamePartition b c) :
     SamePartition a c :=
